@@ -44,6 +44,8 @@ static void mtx_unlock(struct Mutex *m) {
 }
 static void ULock__ctor__Mutex_ref(struct ULock *l, struct Mutex *m) { l->m = m; l->owns = 1; mtx_lock(m); }
 static void ULock__dtor(struct ULock *l) { if (l->owns) mtx_unlock(l->m); }
+static void ULock__unlock(struct ULock *l) { __CPROVER_assert(l->owns, "unique_lock::unlock on a lock that owns its mutex (std::system_error otherwise)"); mtx_unlock(l->m); l->owns = 0; }
+static void ULock__lock(struct ULock *l) { __CPROVER_assert(!l->owns, "unique_lock::lock on a lock that does not own its mutex (std::system_error otherwise)"); mtx_lock(l->m); l->owns = 1; }
 static void SLock__ctor__Mutex_ref(struct SLock *l, struct Mutex *m) { l->m = m; mtx_lock(m); }
 static void SLock__dtor(struct SLock *l) { mtx_unlock(l->m); }
 static void CondVar__notify_all(struct CondVar *c) { g_notifies++; }
@@ -102,6 +104,12 @@ static struct Runnable **TaskIt__op_star(struct TaskIt *i) { __CPROVER_assert(i-
   __CPROVER_assume(i->l->items[i->l->head + i->idx] != 0 && (i->idx == g_wq || i->l->items[i->l->head + i->idx] != g_wtask));
   g_last_read_idx = i->idx; g_read_valid = 1; return &i->l->items[i->l->head + i->idx]; }
 static struct TaskIt *TaskIt__op_inc(struct TaskIt *i) { i->idx++; return i; }
+static struct Runnable **TaskList__front(struct TaskList *l) { struct TaskIt i; i.l = l; i.idx = 0; return TaskIt__op_star(&i); }
+static void TaskList__pop_front(struct TaskList *l) {
+  __CPROVER_assert(l->len > 0, "pop_front() of a non-empty list");
+  __CPROVER_assert(g_held_queue, "C07 a task changes hands only with the queue mutex held");
+  l->head++; l->len--; g_read_valid = 0;
+}
 static void TaskIt__ctor__TaskIt_ref(struct TaskIt *a, struct TaskIt *b) { *a = *b; }
 static _Bool X_op_eq__TaskIt_ref_TaskIt_ref(struct TaskIt *a, struct TaskIt *b) { return a->idx == b->idx; }
 /* ---- allocation, tasks, threads ---- */
